@@ -676,8 +676,85 @@ def exhaustive_pairs(ctx, max_a, max_r, budget_s, workers=16, nparts=8):
 
 # ------------------------------------------------------------------------------------------------
 
+def regroup_correspondence(ctx, n):
+    """`AdapterCutter._regroup_into_indexed_adapters` against `Cutadapt.regroup` (lean/Cutadapt/Regroup.lean) on random adapter lists built
+    by the command-line parser: which adapters go into a prefix / suffix index, the new order of the list, the rows of the name table"""
+    import json
+    import logging
+    import cutadapt.cli as cli
+    import cutadapt.adapters as A
+    from cutadapt.modifiers import AdapterCutter
+    import pipe
+    pipe.patch_prefilter()
+    rng = ctx.rng
+    parser = cli.get_argument_parser()
+    cases = []
+    for _ in range(n):
+        argv = []
+        if rng.random() < 0.15:
+            argv.append("--match-read-wildcards")
+        if rng.random() < 0.2:
+            argv.append("--no-indels")
+        if rng.random() < 0.4:
+            argv += ["-e", rng.choice(["0", "0.1", "0.2", "0.34", "0.5", "1", "2", "4"])]
+        seqs = []
+        for i in range(rng.choice([1, 2, 2, 3, 3, 4, 5, 6, 7])):
+            L = rng.choice([4, 5, 6, 8, 9, 10, 11])      # short: the index of every acceptable group is really built, on both sides
+            seq = pipe.rs(rng, L) if not seqs or rng.random() < 0.8 else rng.choice(seqs)
+            seqs.append(seq)
+            k = rng.random()
+            if k < 0.1:
+                j = rng.randrange(len(seq))
+                seq = seq[:j] + rng.choice("NRYI") + seq[j + 1:]     # adapter wildcards: not acceptable (unless -N … not generated)
+            par = rng.choice(["", "", "", ";noindels", ";e=0.5", ";e=0", ";max_errors=2", ";min_overlap=3", ";indels"])
+            kind = rng.choice(["p5", "p5", "p5", "p3", "p3", "p3", "a", "g", "b", "linked", "nia", "x5"])
+            flag, spec = {"p5": ("-g", "^" + seq), "p3": ("-a", seq + "$"), "a": ("-a", seq), "g": ("-g", seq), "b": ("-b", seq),
+                          "linked": (rng.choice(["-a", "-g"]), "^" + seq + "..." + pipe.rs(rng, 6) + rng.choice(["", "$"])),
+                          "nia": ("-a", seq + "X"), "x5": ("-g", "X" + seq)}[kind]
+            if kind == "linked":
+                par = ""
+            name = rng.choice(["", "", f"n{i}=", f"n{i}=", "dup="])
+            argv += [flag, name + spec + par]
+        args = parser.parse_args(argv + ["in.fastq"])
+        logging.disable(logging.CRITICAL)
+        try:
+            ads, _ = cli.adapters_from_args(args)
+        except cli.CommandLineError:
+            ctx.count("regroup:cmdline-error")
+            continue
+        finally:
+            logging.disable(logging.NOTSET)
+        cutter = AdapterCutter(ads, 1, "trim", True)
+        pos = lambda a: next(i for i, x in enumerate(ads) if x is a)
+        entries, members = [], []
+        for obj in cutter.adapters._adapters:
+            if isinstance(obj, (A.IndexedPrefixAdapters, A.IndexedSuffixAdapters)):
+                mem = list(obj._index._adapters)
+                entries.append(dict(index="prefix" if isinstance(obj, A.IndexedPrefixAdapters) else "suffix",
+                                    members=[pos(a) for a in mem], names=[a.name for a in mem]))
+                members += [a.name for a in mem]
+                ctx.nontriv(("regroup", tuple(argv)))
+                ctx.count("regroup:index-built")
+            else:
+                entries.append(dict(pos=pos(obj), name=obj.name))
+        names = [e["name"] if "name" in e else f"indexed_{e['index']}_adapters" for e in entries] + members
+        real = json.dumps(dict(entries=entries, names=names), sort_keys=True)
+        cases.append(("regroup " + json.dumps(dict(adapters=[pipe.adapter_json(a) for a in ads])), real, argv))
+    outs = core.run_driver([c[0] for c in cases])
+    for (line, real, argv), out in zip(cases, outs):
+        try:
+            model = json.dumps(json.loads(out), sort_keys=True)
+        except ValueError:
+            model = out
+        ctx.evaluations += 1
+        ctx.corr_ops["regroup"] = ctx.corr_ops.get("regroup", 0) + 1
+        if model != real:
+            ctx.diffs.append(core.Diff("regroup", json.dumps(argv), real, model))
+
+
 def run(ctx):
     _mods()
+    regroup_correspondence(ctx, ctx.scale(400, 4000))
     ctx.rule = ("sets of 2-8 anchored 5' or 3' adapters over ACGT, lengths 4-12 (thorough: up to 14), 0-3 allowed errors (rates and absolute "
                 "counts with int(len*rate) in 0..3), equal and mixed lengths, near-duplicates (1-2 substitutions/indels apart, one a prefix/"
                 "suffix of another, several variants at one position), indels on/off for the whole set or per adapter (about a third of the sets "
